@@ -153,6 +153,26 @@ func runC01(c *Ctx) {
 				c.Ob("C01-R3", shortFn(target)+" is reached from the consensus roots only via ApplyTransaction: caller "+shortFn(caller), c.FnPos(caller), ok, pathTo(reach, caller))
 			}
 		}
+		// the miner drops a failing transaction but keeps building: the partial effects of the failed application
+		// (gas purchase, nonce bump) must not stay in the block's state, or the sealed root commits to a transaction
+		// that is not in the body and the node's own importer rejects the block
+		ct := c.Fn("opt/miner:(*Work).commitTransaction")
+		fct := c.Facts(ct)
+		snaps, apps := callSites(ct, `^StateDB\.Snapshot$`), callSites(ct, `^core\.ApplyTransaction$`)
+		okSnap := len(snaps) == 1 && len(apps) == 1 && instrDominates(snaps[0], apps[0])
+		c.Ob("C01-R3", "miner: a state snapshot is taken before a transaction is applied", c.FnPos(ct), okSnap, fmt.Sprintf("%d Snapshot, %d ApplyTransaction", len(snaps), len(apps)))
+		var failing []*pstate
+		for _, rs := range fct.AllReturns() {
+			if _, bad := hasLit(rs.State, mustRe(`^core\.ApplyTransaction\(.*\)#2 != nil$`)); bad {
+				failing = append(failing, rs.State)
+			}
+		}
+		c.mustStates("C01-R3", ct, "return after a failed ApplyTransaction", failing, []LitReq{
+			{Name: "miner: a failed transaction's partial effects are reverted to the snapshot taken before it", Re: `^called:Work#0\.state\.RevertToSnapshot\(Work#0\.state\.Snapshot\(\)\)$`},
+		})
+		if len(failing) == 0 {
+			c.Ob("C01-R3", "miner: failing path of commitTransaction found", c.FnPos(ct), false, "")
+		}
 		// transactions are executed through core.ApplyTransaction in all three
 		for _, spec := range []string{"core:(*StateProcessor).Process", "opt/miner:(*Work).commitTransaction", "core:(*BlockGen).AddTx"} {
 			fn := c.Fn(spec)
@@ -266,4 +286,42 @@ func runC01(c *Ctx) {
 		}
 	})
 	c.Min("C01-R6", 12)
+
+	c.Rule("C01-R7", "pruning keeps exactly the referenced states alive: root references are counted per reference and released once per block", func() {
+		ref := c.Fn("trie:(*Database).reference")
+		fr := c.Facts(ref)
+		n := 0
+		for _, rs := range fr.AllReturns() {
+			n++
+			L := rs.State.lits
+			_, inc := hasLit(rs.State, mustRe(`^store:Database#0\.nodes\[Hash#0\]#0\.parents=\(Database#0\.nodes\[Hash#0\]#0\.parents \+ 1\)$`))
+			absent := L["!Database#0.nodes[Hash#0]#1"]
+			dup := L["Database#0.nodes[Hash#1].children[Hash#0]#1"] && L["Hash#1 != zero(Hash)"]
+			c.Ob("C01-R7", "Database.reference counts the reference unless the child is not cached or an inner node already links it (root references always count)", c.Position(rs.Ret.Pos()),
+				inc || absent || dup, strings.Join(guardLits(rs.State), "; "))
+		}
+		c.Ob("C01-R7", "Database.reference return paths found", c.FnPos(ref), n >= 4, fmt.Sprintf("%d", n))
+		// WriteBlockWithState: one root reference and one GC-queue entry per block; every queue entry popped for
+		// collection is dereferenced exactly with the root reference it stands for
+		wbs := c.Fn("core:(*BlockChain).WriteBlockWithState")
+		refs := callSites(wbs, `^Database\.Reference$`)
+		pushes := callSites(wbs, `^Prque\.Push$`)
+		okRef := len(refs) == 1 && c.termOf(wbs, refs[0].Common().Args[2]) == "zero(Hash)"
+		okPush := false
+		for _, p := range pushes {
+			if len(refs) == 1 && c.termOf(wbs, p.Common().Args[1]) == c.termOf(wbs, refs[0].Common().Args[1]) && p.Block() == refs[0].Block() {
+				okPush = true
+			}
+		}
+		c.Ob("C01-R7", "WriteBlockWithState references the block's state root from the meta root and queues the same root for collection", c.FnPos(wbs), okRef && okPush,
+			fmt.Sprintf("%d Reference sites, %d queue pushes", len(refs), len(pushes)))
+		for _, fn := range []*ssa.Function{wbs, c.Fn("core:(*BlockChain).Stop")} {
+			for _, d := range callSites(fn, `^Database\.Dereference$`) {
+				t := c.termOf(fn, d.Common().Args[1])
+				ok := c.termOf(fn, d.Common().Args[2]) == "zero(Hash)" && (strings.Contains(t, ".triegc.Pop()") || strings.Contains(t, ".triegc.PopItem()"))
+				c.Ob("C01-R7", shortFn(fn)+": a root is dereferenced (from the meta root) only when popped from the collection queue", c.Position(d.Pos()), ok, "Dereference("+t+", "+c.termOf(fn, d.Common().Args[2])+")")
+			}
+		}
+	})
+	c.Min("C01-R7", 7)
 }
